@@ -14,6 +14,9 @@ pub const NUMBER_EDITS: [&str; 9] = ["+1", "-1", "negated", "+2^8", "+2^16", "+2
 /// original member keeping an altered value: two members where one was signed. For readers that
 /// fold member names (paths, identifiers, algorithm names) the two may become one.
 pub const ALIAS_RESPELLINGS: [&str; 7] = ["trailing-slash", "doubled-slash", "leading-dot-slash", "upper", "first-letter-case", "trailing-space", "slash->backslash"];
+/// Edits of a list of strings (a command line, above all): two neighbours joined with a blank, one
+/// element cut at its first blank, an empty element appended - the same words, cut differently.
+pub const LIST_EDITS: [&str; 3] = ["elements-joined", "element-split-at-blank", "empty-element-appended"];
 /// Edits of null / empty values / booleans and of a member as a whole.
 pub const SHAPE_EDITS: [&str; 10] = ["null->{}", "null->[]", "null->empty-string", "null->0", "null->false", "{}->null", "[]->null", "empty-string->null", "flipped", "member-removed"];
 
@@ -151,6 +154,17 @@ fn walk(v: &Value, at: &str, out: &mut Vec<String>) {
             if a.is_empty() {
                 out.push(format!("[]->null@{at}"));
             }
+            if !a.is_empty() && a.iter().all(|x| x.is_string()) {
+                out.push(format!("empty-element-appended@{at}"));
+                for i in 0..a.len() {
+                    if i + 1 < a.len() {
+                        out.push(format!("elements-joined@{at}/{i}"));
+                    }
+                    if a[i].as_str().map(|t| t.trim().contains(' ')).unwrap_or(false) {
+                        out.push(format!("element-split-at-blank@{at}/{i}"));
+                    }
+                }
+            }
             for (i, x) in a.iter().enumerate() {
                 walk(x, &format!("{at}/{i}"), out);
             }
@@ -260,6 +274,31 @@ pub fn apply(doc: &mut Value, name: &str) -> bool {
         }
         obj.insert(alias, orig);
         obj.insert(key, other);
+        return true;
+    }
+    if kind == "empty-element-appended" {
+        let Some(arr) = doc.pointer_mut(ptr).and_then(|p| p.as_array_mut()) else { return false };
+        arr.push(json!(""));
+        return true;
+    }
+    if kind == "elements-joined" || kind == "element-split-at-blank" {
+        let Some((parent, last)) = ptr.rsplit_once('/') else { return false };
+        let Ok(i) = last.parse::<usize>() else { return false };
+        let Some(arr) = doc.pointer_mut(parent).and_then(|p| p.as_array_mut()) else { return false };
+        if kind == "elements-joined" {
+            if i + 1 >= arr.len() {
+                return false;
+            }
+            let (Some(x), Some(y)) = (arr[i].as_str().map(String::from), arr[i + 1].as_str().map(String::from)) else { return false };
+            arr[i] = json!(format!("{x} {y}"));
+            arr.remove(i + 1);
+        } else {
+            let Some(t) = arr.get(i).and_then(|x| x.as_str()).map(String::from) else { return false };
+            let t = t.trim().to_string();
+            let Some((x, y)) = t.split_once(' ') else { return false };
+            arr[i] = json!(x);
+            arr.insert(i + 1, json!(y.trim_start()));
+        }
         return true;
     }
     if kind == "member-removed" {
